@@ -10,7 +10,7 @@
   session that is not relaying pre-batched proxy traffic. Tag lists are compared modulo `core`
   (tags are re-stamped / merged per transmission and are not among the fields the property names).
 -/
-import XMT.BatchDrain
+import XMT.BatchLast
 namespace XMT.Props.C03
 open XMT XMT.Packet XMT.Batch
 
@@ -66,6 +66,17 @@ theorem drain_lossless (P F : Nat) (hP : P < Facts.fragMax) (hP2 : 2 ≤ P) (i :
     ∃ obs, observe (drain P F i ((content st).length + 1) st) = .ok obs ∧
       (keepF obs).map core = (keepF (content st)).map core :=
   drain_spec P F hP hP2 i _ st (Nat.lt_succ_self _) hlast hq
+
+/-- **… and with a fragment group the peer asked to abandon** (`Last > 0`, the exception the
+property names): the observed sequence is the queued sequence minus a *prefix* of packets that all
+belong to the abandoned group — nothing else is ever missing, duplicated or reordered. -/
+theorem drain_lossless_abandoned_group (P F : Nat) (hP : P < Facts.fragMax) (hP2 : 2 ≤ P) (i : Bytes)
+    (st : St) (hq : ∀ a ∈ content st, QWF a) :
+    ∃ dropped rest, content st = dropped ++ rest ∧
+      (∀ d ∈ dropped, 0 < st.last ∧ Flag.group d.flags = st.last) ∧
+      ∃ obs, observe (drain P F i ((content st).length + 1) st) = .ok obs ∧
+        (keepF obs).map core = (keepF rest).map core :=
+  drain_spec_last P F hP hP2 i st hq
 
 /-! Non-vacuity: two keep-alives only (the repaired case) and a mixed queue. -/
 def dev : Bytes := 3 :: List.replicate 31 0
